@@ -212,7 +212,8 @@ def run_ddsmt(workdir,
               pre_outfile=None,
               input_bytes=None,
               env_extra=None,
-              cmd_override=None):
+              cmd_override=None,
+              reader=False):
     """Run the real ddSMT once.  ``spec``/``cc_spec``: list of rule lines.
     ``launcher``: None (the real executable) or a vlaunch config dict.
     ``entry``: 'bin' (bin/ddsmt) or 'module' (python -m ddsmt).
@@ -278,15 +279,45 @@ def run_ddsmt(workdir,
         env.update(env_extra)
     in_before = refreader.fnv1a([data.decode('latin-1')])
     t0 = time.time()
+    # stdout/stderr go to files, not pipes: if the main process dies (e.g.
+    # from SIGKILL) orphaned workers keep inherited pipes open for ever
+    so_path = os.path.join(workdir, 'stdout.txt')
+    se_path = os.path.join(workdir, 'stderr.txt')
+    so = open(so_path, 'wb')
+    se = open(se_path, 'wb')
     proc = subprocess.Popen(argv,
-                            stdout=subprocess.PIPE,
-                            stderr=subprocess.PIPE,
+                            stdout=so,
+                            stderr=se,
                             stdin=subprocess.DEVNULL,
                             env=env,
                             cwd=workdir,
                             start_new_session=True)
+    so.close()
+    se.close()
     timed_out = False
     sent_signal = False
+    reader_seen = {}
+    reader_stop = []
+    reader_polls = [0]
+
+    def poll_reader():
+        # what another process sees when it opens the output file
+        while not reader_stop:
+            try:
+                with open(outfile, 'rb') as f:
+                    data_ = f.read()
+            except FileNotFoundError:
+                data_ = None
+            reader_polls[0] += 1
+            if data_ not in reader_seen:
+                reader_seen[data_] = reader_polls[0]
+            time.sleep(0.0002)
+
+    rthread = None
+    if reader:
+        import threading
+        rthread = threading.Thread(target=poll_reader, daemon=True)
+        rthread.start()
     try:
         if signal_after_tests is not None:
             deadline = time.time() + timeout
@@ -301,23 +332,37 @@ def run_ddsmt(workdir,
                     sent_signal = True
                     break
                 time.sleep(0.002)
-            out, err = proc.communicate(timeout=timeout)
+            proc.wait(timeout=timeout)
         elif signal_after is not None:
             try:
-                out, err = proc.communicate(timeout=signal_after)
+                proc.wait(timeout=signal_after)
             except subprocess.TimeoutExpired:
                 os.kill(proc.pid, signal_no)
                 sent_signal = True
-                out, err = proc.communicate(timeout=timeout)
+                proc.wait(timeout=timeout)
         else:
-            out, err = proc.communicate(timeout=timeout)
+            proc.wait(timeout=timeout)
     except subprocess.TimeoutExpired:
         timed_out = True
+        if launcher is not None:
+            # ask the launcher for the stacks of all threads (witness)
+            try:
+                os.kill(proc.pid, signal.SIGUSR1)
+                time.sleep(0.5)
+            except OSError:
+                pass
         try:
             os.killpg(proc.pid, signal.SIGKILL)
         except OSError:
             pass
-        out, err = proc.communicate()
+        proc.wait()
+    with open(so_path, 'rb') as f:
+        out = f.read()
+    with open(se_path, 'rb') as f:
+        err = f.read()
+    if rthread is not None:
+        reader_stop.append(1)
+        rthread.join()
     # make sure nothing of this run's process group lingers
     try:
         os.killpg(proc.pid, 0)
@@ -334,6 +379,8 @@ def run_ddsmt(workdir,
     r.timed_out = timed_out
     r.sent_signal = sent_signal
     r.lingering_group = lingering
+    r.reader_seen = reader_seen
+    r.reader_polls = reader_polls[0]
     r.infile = infile
     r.outfile = outfile
     r.workdir = workdir
